@@ -76,10 +76,6 @@ def axisGroups (pairwise : Bool) (n : Nat) (sel : Sel) (m : Option Nat) : List (
       | some mm => (pieceWrites n mm pc v).map (fun (p, i) => (p.toNat, i)))
   | s, _ => [bc (s.positions n) 0]
 
-def product {α} : List (List α) → List (List α)
-  | [] => [[]]
-  | xs :: rest => xs.flatMap (fun x => (product rest).map (fun r => x :: r))
-
 /-- `set`: for each target element (row-major) the flat offset into the value
 that ends up there, or `-` if untouched.  The value is right-aligned against
 the array axes (numpy broadcasting). -/
